@@ -4,17 +4,27 @@
 package main
 
 import (
+	"fmt"
 	"os"
+	"time"
 
 	"verifharness/kit"
 )
 
 func main() {
 	c := kit.Parse("C05", os.Args[1:])
+	t0 := time.Now()
+	lap := func(what string) {
+		fmt.Fprintf(os.Stderr, "c05: %s done, %d cases, %.1fs\n", what, c.NextID(), time.Since(t0).Seconds())
+	}
 	partBudgets(c)
+	lap("budget functions")
 	partMapping(c)
+	lap("mapping")
 	partMethods(c)
+	lap("methods+validators")
 	partRounds(c)
+	lap("rounds")
 	c.Meta.Rule = "A: budget lists x instants at window edges (hit-1ns, hit, hit+1ns, hit+d-1ns, hit+d, ...) x pool sizes at percentage rounding boundaries; " +
 		"M: generated clusters (node health/deletion states) x budgets; B: each method's ComputeCommands under generated mappings; " +
 		"R: multi-round histories of disrupt calls with validation-time events, command completion and restarts. " +
